@@ -588,12 +588,12 @@ pub fn batch_main(args: &[String]) -> i32 {
             "known_findings_hit": known_hit,
             "violation_records": violation_records,
             "real_components": ["deltio (all modules, built from /repo working tree with --cfg deltio_verif)", "tonic server stack (router, generated services, codec, status mapping)", "prost", "tokio runtime (current_thread), timers, mpsc/oneshot/Notify", "async-stream, tokio-stream merge, futures Shared"],
-            "stubbed_components": ["TCP + HTTP/2 between client and server (direct tower::Service call; two HTTP/2 effects are modelled: the send window as a response pipe for slow StreamingPull clients, and the client's 16 KiB header list limit for status trailers)", "reqwest/hyper/rustls for push (scripted endpoint behind deltio::verif::PushClient)", "OS entropy (seeded getrandom)", "OS clock for timers (tokio paused clock)"],
+            "stubbed_components": ["TCP (never used) and, outside the conn family, HTTP/2 between client and server (direct tower::Service call; two HTTP/2 effects are modelled: the send window as a response pipe for slow StreamingPull clients, and the client's 16 KiB header list limit for status trailers); in the conn family (C07, C17: 3-4% of the runs) tonic's transport server, hyper and h2 run for real on both sides of one in-memory duplex connection", "reqwest/hyper/rustls for push (scripted endpoint behind deltio::verif::PushClient)", "OS entropy (seeded getrandom)", "OS clock for timers (tokio paused clock)"],
             "exhaustive": false
         },
         "assumptions": [
             "sequentially consistent interleavings at schedule-point granularity stand in for the multi-threaded runtime",
-            "hyper/h2/reqwest behaviour is outside the simulation",
+            "hyper/h2 behaviour is inside the simulation only in the conn family (one connection, default settings); reqwest is outside",
             "a clean batch is evidence, not proof"
         ],
         "wall_s": wall,
